@@ -90,6 +90,9 @@ def run(ctx):
     ctx.rule("R16.k", "class schema model: JSONSerialization.class__schema interpreted for tuples of classes ((int, float), (float, int), (int, str), (str, int, float)): the schema admits the "
                       "JSON type of the instances of EVERY class of the tuple (`number` for float even when int comes first)", floor=1)
     class_schema_model(ctx, "R16.k")
+    ctx.rule("R16.w", "selector schema model: selector_schema / objectselector_schema interpreted for 0, 1 and 2 objects never emit an empty `anyOf` / `allOf` / `oneOf` (the keyword requires a "
+                      "non-empty array: the schema of a Selector without objects would not be a JSON Schema)", floor=1)
+    selector_schema_wellformed(ctx, "R16.w")
     codec_none_guards(ctx, "R16.n", only=("Tuple", "NumericTuple", "XYCoordinates", "Range", "Date", "CalendarDate", "DateRange", "CalendarDateRange"))
     cls = ctx.repo.cls(SER)
     methods = {m for m in cls.methods if m.endswith("_schema")}
@@ -522,3 +525,45 @@ def class_schema_model(ctx, rule):
                  input="ClassSelector(class_=(int, float)) holding 2.5; List(item_type=(int, float)) holding [1, 2.5]")
     else:
         ctx.ok(rule, f, f.node, "class schema model: for a tuple of classes the schema admits the JSON type of every class of the tuple (%d tuples)" % n)
+
+
+def selector_schema_wellformed(ctx, rule):
+    """selector_schema / objectselector_schema interpreted for a Selector with NO objects, one object and two objects of
+    different JSON types: `anyOf` (like `allOf` / `oneOf`) must be a NON-EMPTY array in every draft of JSON Schema, so the
+    schema emitted for an empty Selector -- a legal declaration, e.g. one whose objects are filled in later -- must not
+    carry `anyOf: []`."""
+    from engine.absint import Interp, Obj, Unsupported
+    problems, n = [], 0
+    table = {"<type int>": "integer", "<type str>": "string"}
+    for m in ("selector_schema", "objectselector_schema"):
+        f = ctx.repo.method(SER, m)
+        for objs, types in (([], []), (["one"], ["<type str>"]), (["one", 2], ["<type str>", "<type int>"])):
+            objects = list(objs)
+            p = Obj("selector", objects=objects)
+            me = Obj("JSONSerialization", json_schema_literal_types=dict(table))
+
+            def hook(fn, args, kwargs):
+                if fn.endswith(".objects.values") and not args:
+                    return list(objects)
+                if fn == "type" and len(args) == 1 and args[0] in objs:
+                    return types[objs.index(args[0])]
+                return NotImplemented
+            it = Interp(ctx.hier, dyn=SER, inline=lambda mm: False, call_hook=hook)
+            try:
+                outs = it.run_all(f, {f.params[0]: me, f.params[1]: p, "safe": False})
+            except Unsupported as e:
+                raise AnalysisError("%s: absint cannot interpret %s: %s" % (rule, m, e))
+            rets = [o for o in outs if o.kind == "return" and not o.imprecise]
+            if len(outs) != 1 or len(rets) != 1 or not isinstance(rets[0].value, dict):
+                raise AnalysisError("%s: %s is not interpretable precisely on %d object(s) (%s)" % (rule, m, len(objs), outs[0].notes[:2] if outs else "no outcome"))
+            n += 1
+            sch = rets[0].value
+            for key in ("anyOf", "allOf", "oneOf"):
+                if key in sch and isinstance(sch[key], list) and not sch[key]:
+                    problems.append((f, "%s emits `%s: []` for a Selector without objects: not a well-formed JSON Schema (the keyword requires a non-empty array; validators reject the schema itself)" % (m, key)))
+    ctx.abstract_cases += n
+    if problems:
+        f, msg = problems[0]
+        ctx.fail(rule, f, f.node, "selector schema model: %s (%d problem(s))" % (msg, len(problems)), key=SER + "::empty-combinator", input="param.Selector(objects=[]) -> schema {'anyOf': [], 'enum': []}")
+    else:
+        ctx.ok(rule, ctx.repo.method(SER, "selector_schema"), None, "selector schema model: no empty anyOf / allOf / oneOf for 0, 1 and 2 objects (%d cases)" % n)
